@@ -80,7 +80,7 @@ function exportForm(inst, id, report) {
     opcode: inst.opcodeString, p66: 0, pF2: 0, pF3: 0, np: 0, fw: 0, a67: 0, w: 0, l: 0, pp: 0, mm: 0, opb: [], plusr: 0,
     modrm: 0, digit: -1, modreq: 0, rmfix: -1, sfx: -1, imms: [], is4: 0, rel: 0, moff: 0, osz: 32, ops: [],
     tt: inst.tupleType || "", esz: 0, k: inst.kmask ? 1 : 0, z: inst.zmask ? 1 : 0, er: inst.er ? 1 : 0, sae: inst.sae ? 1 : 0, bc: 0,
-    lock: 0, rep: 0, repne: 0, xacq: 0, xrel: 0, ext: Object.keys(inst.ext || {}).join(","),
+    lock: 0, rep: 0, repne: 0, xacq: 0, xrel: 0, jcc: 0, ext: Object.keys(inst.ext || {}).join(","),
   };
   const bad = (why) => { if (f.ok) { f.ok = false; f.why = why; } };
   let opstr = inst.opcodeString;
@@ -323,6 +323,7 @@ function exportForm(inst, id, report) {
     }
   }
   f.expl = []; f.ops.forEach((x, j) => { if (!x.imp) f.expl.push(j + 1); });
+  f.jcc = (f.rel > 0 && /^j/.test(inst.name) && !/^(jmp|jmpabs|jecxz)$/.test(inst.name)) ? 1 : 0;    // Jcc: branch-hint prefixes 2E / 3E (SDM vol.2 2.1.1)
   f.ops_s = inst.operands.map(o => (o.implicit ? "<" + o.data + ">" : o.data)).join(", ");
   return f;
 }
